@@ -708,3 +708,306 @@ def oracle_c06(case, obs, res):
     ) or any(c["do"] in TERMINATORS for c in obs.calls)
     res.nontrivial = ended_abnormally and outstanding >= 1
     return res
+
+
+# ------------------------------------------------------------------------------------------ C13
+
+_NONE_RESPONSE = {"null", "checkpoint", "clear_checkpoint", "create", "save", "drop", "sleep", "monitor", "unmonitor", "unsubscribe", "pause"}
+
+
+def oracle_c13(case, obs, res):
+    from .devices import St
+
+    if obs.stuck:
+        res.classes.append("stuck(C07)")
+        return res
+    feats = interruption_features(obs)
+    F = lambda **kw: _feat(case, obs, **kw, **feats)  # noqa: E731
+    # hook indices per message object
+    hooks_of = {}
+    for hi, h in enumerate(obs.hook):
+        hooks_of.setdefault(id(h["msg"]), []).append(hi)
+    # interruption points (hook index at which a pause/suspension took effect)
+    _, info = replay_model(obs)
+    int_points = {it["hook_index"] for it in info["interruptions"]}
+    term_points = [hi for (new, old, hi) in obs.states if new in ("aborting", "stopping", "halting")]
+    world = obs.world
+    led = world.ledger
+    docs_at = {}
+    for name, doc, hi in obs.docs:
+        docs_at.setdefault(hi, []).append((doc_name(name), doc))
+    rewound_between = False
+    for y in obs.plog.yields:
+        if "resp" not in y:
+            continue
+        m, resp = y["msg"], y["resp"]
+        cmd = m.command
+        his = hooks_of.get(id(m), [])
+        if not his:
+            continue
+        # was this message in flight when an interruption took effect (its hook is the last one before it)?
+        in_flight = any((hi + 1) in int_points for hi in his)
+        if len(his) > 1 or in_flight:
+            rewound_between = True
+        feat = dict(in_flight_at_interruption=in_flight, command=cmd)
+
+        def executions():
+            for hi in his:
+                lo = obs.hook[hi]["ledger"]
+                up = obs.hook[hi + 1]["ledger"] if hi + 1 < len(obs.hook) else len(led)
+                yield hi, led[lo:up]
+
+        def bad(kind, detail):
+            res.fail(kind, f"yield tap#{y['i']} {cmd}({getattr(m.obj, 'name', None)}): {detail}", **F(**feat))
+
+        if cmd in _NONE_RESPONSE:
+            if resp is not None:
+                bad("wrong_response", f"received {resp!r}, expected None")
+        elif cmd == "read":
+            rids = [info_ for _, seg in executions() for (_, dev, op, info_) in seg if op == "read" and dev == m.obj.name]
+            if not any(world.results.get(r) is resp for r in rids):
+                bad("wrong_response", f"received {str(resp)[:120]}, which is not a reading returned by an execution of this message")
+        elif cmd in ("set", "trigger", "kickoff", "complete"):
+            sids = []
+            for _, seg in executions():
+                for _, dev, op, info_ in seg:
+                    if op == cmd and dev == m.obj.name:
+                        sids.append(info_[1] if isinstance(info_, tuple) else info_)
+            if not (isinstance(resp, St) and resp.sid in sids):
+                bad("wrong_response", f"received {resp!r}, expected the status object of this message's own {cmd} call (ids {sids})")
+        elif cmd == "wait":
+            if resp is not True:
+                bad("wrong_response", f"received {resp!r}, expected True (done)")
+        elif cmd == "open_run":
+            uids = [d["uid"] for hi in his for (n, d) in docs_at.get(hi + 1, []) if n == "start"]
+            if resp not in uids:
+                bad("wrong_response", f"received {resp!r}, expected the uid of the start document it emitted {uids}")
+        elif cmd == "close_run":
+            uids = [d["run_start"] for hi in his for (n, d) in docs_at.get(hi + 1, []) if n == "stop"]
+            if resp not in uids:
+                bad("wrong_response", f"received {resp!r}, expected the run_start uid of the stop document it emitted {uids}")
+        elif cmd == "rewindable":
+            if not isinstance(resp, bool):
+                bad("wrong_response", f"received {resp!r}, expected the rewindable flag")
+        elif cmd == "subscribe":
+            if not isinstance(resp, int):
+                bad("wrong_response", f"received {resp!r}, expected a subscription token")
+        elif cmd == "configure":
+            if not (isinstance(resp, tuple) and len(resp) == 2):
+                bad("wrong_response", f"received {str(resp)[:100]}, expected (old, new) configuration")
+        elif cmd in ("stage", "unstage"):
+            if resp != [m.obj]:
+                bad("wrong_response", f"received {resp!r}, expected the device's own {cmd} result")
+    # return value of the public call
+    runs, _ = check_docs(obs.docs[: (obs.probe or {}).get("docs_before")], idle=False, validate=False)
+    uids = tuple(runs.keys())
+    main = [c for c in obs.calls if c.get("outcome") == "return" and c["do"] in ("call", "resume", "abort", "stop", "halt")]
+    for c in main:
+        v = c.get("value")
+        got = tuple(getattr(v, "run_start_uids", v) or ())
+        n = len(got)
+        if got != uids[:n] or (c is main[-1] and got != uids):
+            res.fail("wrong_uid_tuple", f"{c['do']}() returned {got}, runs opened in order: {uids}", **F(command="RE"))
+        if hasattr(v, "plan_result") and c["do"] in ("call", "resume") and obs.plog.returned:
+            if v.plan_result != obs.plog.return_value:
+                res.fail("wrong_plan_result", f"plan returned {obs.plog.return_value!r}, RunEngineResult.plan_result={v.plan_result!r}", **F(command="RE"))
+    res.nontrivial = rewound_between
+    return res
+
+
+# ------------------------------------------------------------------------------------------ C14
+
+
+def oracle_c14(case, obs, res):
+    from bluesky.utils import IllegalMessageSequence
+
+    from .oracles import numbering_problems
+
+    if obs.stuck:
+        res.classes.append("stuck(C07)")
+        return res
+    feats = interruption_features(obs)
+    F = lambda **kw: _feat(case, obs, **kw, **feats)  # noqa: E731
+    idle = obs.final_state == "idle"
+    runs, problems = check_docs(obs.docs[: (obs.probe or {}).get("docs_before")], idle=idle)
+    for kind, detail in problems:
+        res.fail(kind, detail, **F())
+    # which run does each key denote over time?  open_run(K) at hook h emits a start at docs index with hook h+1
+    start_at = {}
+    for name, doc, hi in obs.docs:
+        if doc_name(name) == "start":
+            start_at.setdefault(hi, []).append(doc["uid"])
+    current = {}  # key -> run uid
+    dup_expected = []
+    desc_run = {d_uid: r.uid for r in runs.values() for d_uid in r.descriptors}
+    desc_name = {d_uid: d["name"] for r in runs.values() for d_uid, d in r.descriptors.items()}
+    bnames = {n for (_, n) in bundled_streams(obs)}
+    docs_by_hook = {}
+    for name, doc, hi in obs.docs:
+        docs_by_hook.setdefault(hi, []).append((doc_name(name), doc))
+    thrown_at = {}
+    resumed = set()
+    for y in obs.plog.yields:
+        if "thrown" in y:
+            thrown_at[id(y["msg"])] = y["thrown"]
+        if "thrown" in y or "resp" in y:
+            resumed.add(id(y["msg"]))
+    simultaneous = 0
+    max_open = 0
+    events_in = set()
+    open_now = set()
+    for hi, h in enumerate(obs.hook):
+        m = h["msg"]
+        if id(m) not in obs.plog.msg_ids:
+            continue
+        key = m.run
+        emitted = docs_by_hook.get(hi + 1, [])
+        if m.command == "open_run":
+            new = [d["uid"] for n, d in emitted if n == "start"]
+            if key in current:
+                # duplicate open on an open key: must be rejected at that yield, nothing emitted
+                if new:
+                    res.fail("duplicate_open_emitted_start", f"open_run for already-open key {key!r} emitted a start", **F())
+                exc = thrown_at.get(id(m))
+                from bluesky.utils import FailedPause, RunEngineControlException
+
+                if isinstance(exc, (RunEngineControlException, FailedPause)) or id(m) not in resumed:
+                    res.classes.append("duplicate_open_preempted_by_request")
+                elif not isinstance(exc, IllegalMessageSequence):
+                    res.fail("duplicate_open_not_rejected", f"open_run for already-open key {key!r}: plan received {exc!r}", **F())
+                res.classes.append("duplicate_open")
+                dup_expected.append(key)
+            elif new:
+                current[key] = new[0]
+                open_now.add(key)
+        elif m.command == "close_run":
+            for n, d in [x for x in emitted if x[0] == "stop"][:1]:
+                if n == "stop" and key in current and d["run_start"] != current[key]:
+                    res.fail("close_applied_to_other_run", f"close_run(run={key!r}) stopped run {d['run_start']} but the key denotes {current[key]}", **F())
+            if any(n == "stop" for n, d in emitted):
+                current.pop(key, None)
+                open_now.discard(key)
+        elif m.command in ("save",):
+            for n, d in emitted:
+                if n in ("event", "descriptor", "event_page"):
+                    sname = d.get("name") if n == "descriptor" else desc_name.get(d.get("descriptor"))
+                    if sname not in bnames:
+                        continue  # interruption / monitor documents emitted between two messages
+                    run_uid = d.get("run_start") or desc_run.get(d.get("descriptor"))
+                    if key in current and run_uid != current[key]:
+                        res.fail(
+                            "message_applied_to_other_run",
+                            f"{m.command}(run={key!r}) produced a {n} of run {run_uid} but the key denotes {current[key]}",
+                            **F(),
+                        )
+                    if n == "event":
+                        events_in.add(run_uid)
+        max_open = max(max_open, len(open_now))
+    # per run numbering (only for runs that were never rewound while a non-bundled stream had events: C05 owns that)
+    _, info = replay_model(obs)
+    if not info["interruptions"]:
+        # numbering across rewinds is C05's business; here: independence of the counters of concurrent runs
+        for r in runs.values():
+            for kind, detail in numbering_problems(r, only_streams=bnames):
+                res.fail(kind, f"run {r.start.get('tag')}: {detail}", **F(numbering=True))
+    res.nontrivial = max_open >= 2 and len(events_in) >= 2
+    return res
+
+
+# ------------------------------------------------------------------------------------------ C11
+
+
+def oracle_c11(case, obs, res):
+    if obs.stuck:
+        res.classes.append("stuck(C07)")
+        return res
+    feats = interruption_features(obs)
+    F = lambda **kw: _feat(case, obs, **kw, **feats)  # noqa: E731
+    user = obs.plog.msg_ids
+    starts = [hi for hi, h in enumerate(obs.hook) if h["msg"].command == "_start_suspender"]
+    if not starts:
+        res.classes.append("no_suspension_started")
+        return res
+    susp = obs.suspend_events
+    terminated_at = [hi for (new, old, hi) in obs.states if new in ("aborting", "stopping", "halting")]
+    pauses = [hi for (new, old, hi) in obs.states if new == "pausing"]
+    nontrivial = False
+    for si, s0 in enumerate(starts):
+        m = obs.hook[s0]["msg"]
+        fut = m.args[3]
+        rec = next((r for r in susp if r["ev"].wait == fut or getattr(fut, "__self__", None) is r["ev"]), None)
+        if rec is None:
+            continue
+        seg0 = obs.hook[s0]["seg"]
+        rel = rec.get("released_at_hook")
+        if rel is not None and rel <= s0:
+            # released (virtual time passed while paused) before the helper plan even started
+            res.classes.append("released_before_suspension_started")
+            continue
+        # hooks between _start_suspender and the release (or end of trace if never released)
+        upto = rel if rel is not None else len(obs.hook)
+        if any(s0 < t <= upto for t in terminated_at):
+            res.classes.append("terminated_during_suspension")
+            continue
+        paused_during = any(s0 < p <= upto for p in pauses)
+        other_start = any(s0 < o <= upto for o in starts)
+        held = obs.hook[s0 + 1 : upto]
+        intruders = [(s0 + 1 + j, h["msg"].command) for j, h in enumerate(held) if id(h["msg"]) in user]
+        if intruders:
+            res.fail(
+                "plan_ran_during_suspension",
+                f"suspension started at hook#{s0}, released at hook#{rel}: plan messages executed in between: {intruders[:6]}",
+                **F(paused_during_suspension=paused_during, overlapping_suspension=other_start),
+            )
+        # the call must not have returned during the suspension: every hook of the window in the same stage
+        if any(h["seg"] != seg0 for h in held) and not paused_during:
+            res.fail("control_returned_during_suspension", "a blocking call returned while the suspension was in effect", **F())
+        # motors set so far are stopped between _start_suspender and the wait
+        led = obs.world.ledger
+        lo = obs.hook[s0]["ledger"]
+        wf = next((j for j in range(s0 + 1, len(obs.hook)) if obs.hook[j]["msg"].command == "wait_for"), None)
+        up = obs.hook[wf]["ledger"] if wf is not None else len(led)
+        moved = {dev for (_, dev, op, _) in led[:lo] if op == "set"}
+        stopped = {dev for (_, dev, op, _) in led[lo:up] if op == "stop"}
+        if moved - stopped:
+            res.fail("moved_device_not_stopped_at_suspension", f"devices set before the suspension but not stopped at it: {sorted(moved - stopped)}", **F())
+        if moved:
+            nontrivial = nontrivial or feats_cache_nonempty(obs, s0)
+        if rel is None or paused_during or other_start:
+            res.classes.append("suspension_complex" if rel is not None else "never_released")
+            continue
+        # after the release: _resume_from_suspender, post plan, rewindable, then the replay (checked by C04's model)
+        after = [h["msg"].command for h in obs.hook[upto : upto + 12] if id(h["msg"]) not in user]
+        if "_resume_from_suspender" not in after:
+            if not any(t >= upto for t in terminated_at):
+                res.fail("no_resume_after_release", f"messages after release: {after}", **F())
+        inj = rec["inj"]
+        if inj.get("pre") is not None:
+            pre_seen = any(h["msg"].command == "null" and h["msg"].args == ("pre",) for h in held)
+            if not pre_seen:
+                res.fail("pre_plan_not_run", "the suspender's pre-plan did not run before the wait", **F())
+        if inj.get("post") is not None and not any(t >= upto for t in terminated_at):
+            k = next((j for j in range(upto, len(obs.hook)) if obs.hook[j]["msg"].command == "_resume_from_suspender"), None)
+            post_ok = k is not None and any(
+                h["msg"].command == "null" and h["msg"].args == ("post",) for h in obs.hook[k : k + 4]
+            )
+            if not post_ok:
+                res.fail("post_plan_not_run", "the suspender's post-plan did not run right after the release", **F())
+        # interruption record carries the justification
+        if (case.get("re") or {}).get("record_interruptions") and inj.get("just"):
+            texts = [d["data"].get("interruption") for n, d, _ in obs.docs if doc_name(n) == "event" and "interruption" in d.get("data", {})]
+            n_start = sum(1 for n, d, hi in obs.docs if doc_name(n) == "start" and hi <= s0)
+            n_stop = sum(1 for n, d, hi in obs.docs if doc_name(n) == "stop" and hi <= s0)
+            open_runs = n_start - n_stop
+            if open_runs > 0 and inj["just"] not in texts:
+                res.fail("justification_not_recorded", f"interruption events {texts} lack the justification {inj['just']!r}", **F())
+    problems, info = replay_model(obs)
+    for kind, detail in problems:
+        res.fail(kind, detail, **F())
+    res.nontrivial = nontrivial
+    return res
+
+
+def feats_cache_nonempty(obs, hook_index):
+    _, info = replay_model(obs)
+    return any(it["hook_index"] == hook_index and it["cache_len"] > 0 for it in info["interruptions"])
